@@ -158,7 +158,7 @@ func repsOf(root string, snap simfs.Snap) map[string]string {
 }
 
 type installRun struct {
-	r        *engine.Result
+	r          *engine.Result
 	rep0, rep1 map[string]string
 }
 
